@@ -144,9 +144,13 @@ func (vc *VC) execCall(fr *Frame, st *State, pc string, site ssa.Instruction, c 
 			return Sym{T: t}
 		}
 	}
+	short := shortFuncName(callee)
+	ord := fr.callOrd[short]
+	fr.callOrd[short] = ord + 1
+	vc.atCall(fr, st, pc, short, ord, site)
 	spec := vc.eng.specFor(callee)
 	if spec != nil && !spec.Inline {
-		return vc.applyContract(fr, st, pc, callee, spec, args, site)
+		return vc.applyContract(fr, st, pc, callee, spec, args, site, ord)
 	}
 	if callee.Pkg != nil && strings.HasSuffix(callee.Pkg.Pkg.Path(), "/logging") {
 		vc.trusted["logging calls have no effect on modelled state: "+callee.Pkg.Pkg.Path()] = true
@@ -362,10 +366,39 @@ type modTarget struct {
 	isMem bool
 }
 
-func (vc *VC) applyContract(fr *Frame, st *State, pc string, callee *ssa.Function, spec *FuncSpec, args []Term, site ssa.Instruction) Sym {
+// atCall processes the caller's program-point clauses (`label/assert/assume at call F#k`) keyed by this call.
+func (vc *VC) atCall(fr *Frame, st *State, pc string, short string, ord int, site ssa.Instruction) {
+	if fr.spec == nil {
+		return
+	}
+	for _, as := range fr.spec.Asserts {
+		if as.Callee != short || as.Ordinal != ord {
+			continue
+		}
+		if fr.matched == nil {
+			fr.matched = map[*AssertSpec]bool{}
+		}
+		fr.matched[as] = true
+		if as.Label != "" {
+			if fr.labels == nil {
+				fr.labels = map[string]*State{}
+			}
+			fr.labels[as.Label] = st.clone()
+			continue
+		}
+		cenv := vc.envAt(fr, st)
+		g := vc.evalBool(cenv, as.Cl.Expr)
+		if as.Assume {
+			vc.trusted[fmt.Sprintf("assumed at call %s#%d in %s: %s", short, ord, funcName(fr.fn), as.Cl.Src)] = true
+		} else {
+			vc.oblige("assert", fmt.Sprintf("%s#%d", short, ord), pc, g, site.Pos(), as.Cl.Src)
+		}
+		vc.assume(pc, g) // proved above (or explicitly assumed), available below
+	}
+}
+
+func (vc *VC) applyContract(fr *Frame, st *State, pc string, callee *ssa.Function, spec *FuncSpec, args []Term, site ssa.Instruction, ord int) Sym {
 	short := shortFuncName(callee)
-	ord := fr.callOrd[short]
-	fr.callOrd[short] = ord + 1
 	if spec.Trusted {
 		vc.trusted["assumed contract: "+callee.String()] = true
 	}
@@ -386,21 +419,6 @@ func (vc *VC) applyContract(fr *Frame, st *State, pc string, callee *ssa.Functio
 		}
 		a.T = ptypes[i]
 		env.vars[n] = a
-	}
-	// program-point assertions of the caller keyed by this call
-	if fr.spec != nil {
-		for _, as := range fr.spec.Asserts {
-			if as.Callee == short && as.Ordinal == ord {
-				cenv := vc.envAt(fr, st)
-				g := vc.evalBool(cenv, as.Cl.Expr)
-				if as.Assume {
-					vc.trusted[fmt.Sprintf("assumed at call %s#%d in %s: %s", short, ord, funcName(fr.fn), as.Cl.Src)] = true
-				} else {
-					vc.oblige("assert", fmt.Sprintf("%s#%d", short, ord), pc, g, site.Pos(), as.Cl.Src)
-				}
-				vc.assume(pc, g) // proved above (or explicitly assumed), available below
-			}
-		}
 	}
 	// implicit: pointer receiver non-nil
 	if callee.Signature.Recv() != nil {
@@ -462,7 +480,12 @@ func (vc *VC) havocForCall(st, pre *State, env *Env, callee *ssa.Function, spec 
 			if _, ok := vc.eng.keySorts[k]; !ok {
 				continue
 			}
-			vc.havocKey(st, k, "hv")
+			before := vc.heapGet(st, k)
+			nv := vc.havocKey(st, k, "hv")
+			if !ms.nonfresh[k] && strings.HasPrefix(before.Sort, "(Array Int ") {
+				// the callee writes this key only at objects it allocates itself: older objects keep their value
+				vc.emit(fmt.Sprintf("(assert (forall ((r Int)) (! (=> (< (rootof r) %s) (= (select %s r) (select %s r))) :pattern ((select %s r)))))", old.S, nv, before.S, nv))
+			}
 		}
 		return
 	}
@@ -667,7 +690,7 @@ func (e *Engine) effectsOf(vc *VC, fn *ssa.Function) *modSet {
 	if ms, ok := e.effects[fn]; ok {
 		return ms
 	}
-	ms := &modSet{cells: map[*ssa.Alloc]bool{}, heap: map[string]bool{}}
+	ms := &modSet{cells: map[*ssa.Alloc]bool{}, heap: map[string]bool{}, nonfresh: map[string]bool{}}
 	e.effects[fn] = ms // recursion guard (partial result)
 	if fn.Blocks == nil {
 		return ms
@@ -768,7 +791,37 @@ func (vc *VC) addrEffect(addr ssa.Value, ms *modSet) {
 	}
 }
 
+// instrEffects adds the effects of one instruction, tracking which keys are written only at objects allocated
+// by the function itself (see modSet.nonfresh).
 func (vc *VC) instrEffects(fn *ssa.Function, in ssa.Instruction, ms *modSet, depth int) {
+	if ms.nonfresh == nil {
+		ms.nonfresh = map[string]bool{}
+	}
+	tmp := &modSet{cells: ms.cells, heap: map[string]bool{}, freshOK: map[string]bool{}}
+	vc.instrEffects0(fn, in, tmp, depth)
+	fresh := false
+	switch t := in.(type) {
+	case *ssa.Store:
+		if a := rootAlloc(t.Addr); a != nil {
+			fresh = true
+		}
+	case *ssa.Alloc, *ssa.MakeSlice, *ssa.MakeMap, *ssa.MakeClosure, *ssa.MakeChan:
+		fresh = true
+	case *ssa.Convert:
+		fresh = true
+	}
+	for k := range tmp.heap {
+		ms.heap[k] = true
+		if !fresh && !tmp.freshOK[k] {
+			ms.nonfresh[k] = true
+		}
+	}
+	if tmp.all {
+		ms.all = true
+	}
+}
+
+func (vc *VC) instrEffects0(fn *ssa.Function, in ssa.Instruction, ms *modSet, depth int) {
 	switch t := in.(type) {
 	case *ssa.Store:
 		vc.addrEffect(t.Addr, ms)
@@ -871,6 +924,9 @@ func (vc *VC) callEffects(fn *ssa.Function, c *ssa.CallCommon, ms *modSet, depth
 		sub := vc.eng.effectsOf(vc, callee)
 		for k := range sub.heap {
 			ms.heap[k] = true
+			if ms.freshOK != nil && !sub.nonfresh[k] && !sub.all {
+				ms.freshOK[k] = true
+			}
 		}
 		if sub.all {
 			ms.all = true
